@@ -5029,9 +5029,9 @@ class Entity(object, metaclass=EntityMeta):
                         assert objects_to_save[save_pos] is None
                         objects_to_save[save_pos] = obj
                     obj._save_pos_ = save_pos
-                elif obj._status_ == 'cancelled':
-                    # the object was created in this session: put it back into the list of objects to save
-                    assert save_pos is not None and objects_to_save[save_pos] is None
+                elif status == 'created' and objects_to_save[save_pos] is None:
+                    # the object was created in this session and then cancelled:
+                    # put it back into the list of objects to save
                     objects_to_save[save_pos] = obj
                     obj._save_pos_ = save_pos
                 obj._status_ = status
